@@ -45,7 +45,7 @@ OPTION_SETS = [
     ("compound+unnest", {"compound_fields.enabled": True, "unnest_classes": True}),
     ("frozen+slots+clusters", {"format.frozen": True, "format.slots": True, "structure_style": "clusters"}),
 ]
-QUICK_OPTIONS = ["default", "compound", "wrapper", "clusters", "single-package", "unnest", "frozen", "generic-collections"]
+QUICK_OPTIONS = ["default", "compound", "unnest", "namespaces", "frozen"]
 
 
 def resolve_options(opts: dict) -> dict:
@@ -104,12 +104,12 @@ def get_generated(files: dict, oname: str, opts: dict, root_qname: str):
                 cands = [c for c in g.classes() if getattr(getattr(c, "Meta", None), "name", c.__name__) in ("root", "Root") or c.__name__ == "Root"]
                 root = cands[0] if cands else None
             if root is None:
-                ent["problem"] = ("root-class-not-found", sorted(g.files))
+                ent["problem"] = ("generated-package-unusable", f"root class not importable from {sorted(g.files)}")
             else:
                 ctx.build_recursive(root)
                 ent["root"] = root
         except Exception as e:  # noqa
-            ent["problem"] = ("generated-package-broken", f"{type(e).__name__}: {e}")
+            ent["problem"] = ("generated-package-unusable", f"{type(e).__name__}: {e}; files {sorted(g.files)}")
     _GEN[key] = ent
     while len(_GEN) > 6:
         _k, old = _GEN.popitem(last=False)
@@ -216,25 +216,36 @@ def normalise(node, tmap, scope=None, ordered=True, fixed=None):
 
 
 def apply_defaults(tree, s: GX.Schema, tmap):
-    """Expected output = input + attribute defaults / fixed values the schema prescribes (root type and named types)."""
-    q, attrs, kids = tree
-    a = dict(attrs)
+    """Expected output = input + attribute defaults / fixed values the schema prescribes, on every element
+    whose type carries them (the root type, also when it is reused by a nested element)."""
+    root_defaults = []
+    x = s.root.type
+    while x is not None:
+        for at in x.attrs:
+            if isinstance(at, GX.Attr) and (at.default is not None or at.fixed is not None):
+                root_defaults.append(at)
+        x = x.base
+    same_type = {s.root.name}
+    if s.root.type.name:
+        def scan(p):
+            if isinstance(p, GX.Elem) and isinstance(p.type, GX.Complex) and p.type is s.root.type:
+                same_type.add(p.name)
+            elif isinstance(p, GX.Group):
+                for i in p.items:
+                    scan(i)
+        if s.root.type.particle:
+            scan(s.root.type.particle)
 
-    def defaults_of(c):
-        out = []
-        x = c
-        while x is not None:
-            for at in x.attrs:
-                if isinstance(at, GX.Attr) and (at.default is not None or at.fixed is not None):
-                    out.append(at)
-            x = x.base
-        return out
+    def walk(t):
+        q, attrs, kids = t
+        a = dict(attrs)
+        if local(q) in same_type and not any(k == f"{{{I.XSI}}}nil" for k in a):
+            for at in root_defaults:
+                name = f"{{{s.tns}}}{at.name}" if (s.tns and (at.qualified or s.attr_form == "qualified")) else at.name
+                a.setdefault(name, at.type.norm(at.default if at.default is not None else at.fixed))
+        return (q, tuple(sorted(a.items())), tuple(k if isinstance(k, str) else walk(k) for k in kids))
 
-    if local(q) == s.root.name:
-        for at in defaults_of(s.root.type):
-            name = f"{{{s.tns}}}{at.name}" if (s.tns and (at.qualified or s.attr_form == "qualified")) else at.name
-            a.setdefault(name, at.type.norm(at.default if at.default is not None else at.fixed))
-    return (q, tuple(sorted(a.items())), kids)
+    return walk(tree)
 
 
 @harness("c02.faithful")
@@ -246,9 +257,20 @@ def h_faithful(ch: Chooser, vec: list, maxfeat: int, oname: str, free_instances:
     case = {"schema": files["main.xsd"], "features": s.features, "options": oname}
     if len(files) > 1:
         case["other_files"] = {k: v for k, v in files.items() if k != "main.xsd"}
+    try:
+        val = GX.validator(files, _workdir())
+    except GX.InvalidSchema as e:
+        if len([f for f in s.features if f != "none"]) <= 1:
+            raise HarnessError(f"single-feature schema rejected by libxml2: {e}\n{files['main.xsd']}")
+        return {"skip": True, "reason": "feature combination is not a valid schema (libxml2)", "counters": {"schema_rejected": 1}}
     ent = get_generated(files, oname, opts, root_q)
     if ent["problem"]:
         kind, detail = ent["problem"]
+        if kind == "generated-package-unusable" and "Compound field contains ambiguous types" in str(detail) and "mixed" in s.features and opts.get("unnest_classes"):
+            return dict(ok=False, case=case, bucket="KF/mixed-content-with-two-children-of-one-type-unnested-is-ambiguous", detail=str(detail)[:800])
+        if kind == "generated-package-unusable" and opts.get("structure_style") == "namespaces" and "no-namespace" in s.features and "import" in s.features and any(
+                f.count("/") == 0 and f.endswith(".py") and f != "__init__.py" for f in ent["gen"].files):
+            return dict(ok=False, case=case, bucket="KF/namespaces-style-module-shadowed-by-package-of-the-same-name", detail=str(detail)[:800])
         return dict(ok=False, case=case, bucket=f"{kind}/" + "+".join(s.features) + f"/{oname}", detail=str(detail)[:800])
     g = ent["gen"]
     root_cls = ent["root"]
@@ -257,7 +279,6 @@ def h_faithful(ch: Chooser, vec: list, maxfeat: int, oname: str, free_instances:
     doc_el = ig.document()
     doc = doc_el.write()
     case["document"] = doc
-    val = GX.validator(files, _workdir())
     try:
         parsed_doc = etree.fromstring(doc.encode("utf-8"))
     except etree.XMLSyntaxError as e:
@@ -296,19 +317,39 @@ def h_faithful(ch: Chooser, vec: list, maxfeat: int, oname: str, free_instances:
     return dict(ok=True, case=case, obs=oname, nontrivial=h((files["main.xsd"], doc)), counters={"ordered" if ordered else "unordered": 1})
 
 
+def _drop(tree, pred):
+    q, attrs, kids = tree
+    out = []
+    for k in kids:
+        if isinstance(k, str):
+            out.append(k)
+        elif not pred(k):
+            out.append(_drop(k, pred))
+    return (q, attrs, tuple(out))
+
+
 def known(exp, act, s: GX.Schema, doc: str, out: str) -> str | None:
-    """Analysed defects, recognised by predicates over input and output."""
-    ek = [k for k in exp[2] if not isinstance(k, str)]
-    ak = [k for k in act[2] if not isinstance(k, str)]
+    """Analysed defects, recognised by predicates over input and output (at any depth)."""
     nil = (f"{{{I.XSI}}}nil", "true")
-    # (a) an absent optional nillable element comes back as an xsi:nil element
-    extra = [k for k in ak if k not in ek]
-    missing = [k for k in ek if k not in ak]
-    if extra and not missing and all(nil in k[1] and not k[2] for k in extra) and "nillable" in s.features:
-        return "KF/absent-optional-nillable-element-emitted-as-xsi-nil"
+    # (a) an absent optional nillable element ('ns') comes back as an xsi:nil element
+    if "nillable" in s.features:
+        act2 = _drop(act, lambda k: local(k[0]) == "ns" and nil in k[1] and not k[2])
+        exp2 = _drop(exp, lambda k: local(k[0]) == "ns" and nil in k[1] and not k[2])
+        if act2 == exp2 and act != exp:
+            return "KF/absent-optional-nillable-element-emitted-as-xsi-nil"
+    # (c) mixed content: a typed QName child is re-serialized in Clark notation
+    if "mixed" in s.features and "qname-value" in s.features and "{http://www.w3.org/2001/XMLSchema}string</" in out or ("mixed" in s.features and "qname-value" in s.features and ">{urn:t}thing</" in out):
+        return "KF/mixed-content-qname-child-written-in-clark-notation"
     # (b) a required element of list type with an empty value is dropped
-    if missing and not extra and all(local(k[0]) == "l" and not k[2] and not k[1] for k in missing) and "list-type" in s.features:
-        return "KF/required-list-typed-element-with-empty-value-dropped"
+    if "list-type" in s.features:
+        exp2 = _drop(exp, lambda k: local(k[0]) == "l" and not k[2] and not k[1])
+        if exp2 == act and act != exp:
+            return "KF/required-list-typed-element-with-empty-value-dropped"
+    if "nillable" in s.features and "list-type" in s.features:
+        exp2 = _drop(_drop(exp, lambda k: local(k[0]) == "l" and not k[2] and not k[1]), lambda k: local(k[0]) == "ns" and nil in k[1] and not k[2])
+        act2 = _drop(act, lambda k: local(k[0]) == "ns" and nil in k[1] and not k[2])
+        if exp2 == act2:
+            return "KF/absent-optional-nillable-element-emitted-as-xsi-nil"
     return None
 
 
@@ -354,7 +395,7 @@ def _task(t):
 def run(tier: str, seed: int) -> int:
     t0 = time.time()
     th = tier == "thorough"
-    maxfeat = 2 if th else 1
+    maxfeat = 2
     inst_bound = 3 if th else 2
     vecs = enumerate_schemas(maxfeat)
     onames = [o for o, _ in OPTION_SETS] if th else QUICK_OPTIONS
@@ -362,7 +403,7 @@ def run(tier: str, seed: int) -> int:
     for v in vecs:
         for on in onames:
             # every instance within the bound under the default options, the minimal + single-deviation ones under the others
-            b = inst_bound if on in ("default", "compound") else 1
+            b = inst_bound if on in ("default", "compound") else (1 if th else 0)
             tasks.append(("c02.faithful", dict(vec=v, maxfeat=maxfeat, oname=on, free_instances=False), b, ()))
     stats = parallel(tasks, _task, chunk=2)
     for ent in _GEN.values():
